@@ -93,6 +93,9 @@ func drawRule(t *rapid.T, c *hx.Case, i int) *mrule {
 // are asked to wait a little and the reject rules are consulted when that wait is over.
 var pacerFirst bool
 
+// perResourceLoad: the next load goes through the per-resource loader (every rule of these histories is on resource a).
+var perResourceLoad bool
+
 func load(t *rapid.T, ms []*mrule) {
 	var cp []*flow.Rule
 	if pacerFirst {
@@ -102,7 +105,11 @@ func load(t *rapid.T, ms []*mrule) {
 		x := *m.r
 		cp = append(cp, &x)
 	}
-	if _, err := flow.LoadRules(cp); err != nil {
+	if perResourceLoad {
+		if _, err := flow.LoadRulesOfResource("a", cp); err != nil {
+			t.Fatalf("LoadRulesOfResource: %v", err)
+		}
+	} else if _, err := flow.LoadRules(cp); err != nil {
 		t.Fatalf("LoadRules: %v", err)
 	}
 	if got := len(flow.GetRulesOfResource("a")); got != len(cp) {
@@ -220,7 +227,10 @@ func TestSequential(t *testing.T) {
 					ms = append(ms[:k:k], append([]*mrule{m}, ms[k:]...)...)
 					c.Op("reload with rule %s added at position %d", m.r.ID, k)
 				}
+				perResourceLoad = rapid.Bool().Draw(t, "perResourceLoader")
 				load(t, ms)
+				c.ClassIf(perResourceLoad, "mid-history-reload-through-the-per-resource-loader")
+				perResourceLoad = false
 				reloaded = true
 			}
 			res := rapid.SampledFrom([]string{"a", "a", "b"}).Draw(t, "res")
